@@ -12,7 +12,7 @@ for s in $SEEDS; do
   if ! git -C /repo apply --check /verif/seeded/$s/patch.diff 2>/dev/null; then echo -e "$s\tAPPLY-FAIL" >> $OUT; continue; fi
   git -C /repo apply /verif/seeded/$s/patch.diff
   line="$s"
-  for id in C05 C08 C11 C15 C16 C18; do
+  for id in ${CHECKS:-C05 C08 C11 C15 C16 C18}; do
     log=/verif/seeded/$s/check_$id.log
     VERIF_DIR=/verif timeout 1200 ./check $id quick > $log 2>&1
     rc=$?
